@@ -52,7 +52,11 @@ def _fold(rnd, name, value):
 
 
 def text_part(rnd, cid, kind=None):
-    kind = kind or rnd.choice(["7bit", "7bit", "qp", "b64", "8bit", "dots", "long", "blank"])
+    kind = kind or rnd.choice(["7bit", "7bit", "qp", "b64", "8bit", "dots", "long", "blank", "oddtype"])
+    if kind == "oddtype":
+        # media types and parameters with characters that need escaping in a quoted string
+        ct = rnd.choice(['text/pl"ain', 'te\\xt/plain', 'application/x-"quoted"', 'text/plain; charset="us\\"ascii"', 'x-a(b/c)d', 'text/x y'])
+        return [f"Content-Type: {ct}", rnd.choice(["Content-Disposition: att\"ach; filename=x", 'Content-Transfer-Encoding: 7"bit', "Content-Language: e\"n"])], f"odd type {cid}\r\n".encode()
     if kind == "blank":
         # bodies made of line ends only: one empty line, two, a space line
         return ["Content-Type: text/plain; charset=us-ascii"], rnd.choice([b"\r\n", b"\r\n\r\n", b" \r\n", b"\r\n\r\n\r\n"])
